@@ -206,6 +206,16 @@ def rest(ctx):
             adv = adv and len(sw) == 1 and sw[0] in (N.mk_add(N.selfattr("sincereadwritten"), cnt), N.mk_add(N.selfattr("sincereadwritten"), ("call", ("free", "len"), (p.retval,), ())))
     ctx.ob("C10.R4", fi, bool(eof) and all(eof), "read(count) at the end of the substream returns b'' and leaves the pending units and tell() untouched (the caller reports the short read; a later region member must not see a shifted buffer)", key="read eof")
     ctx.ob("C10.R4", fi, adv, "a successful read(count) advances tell() by exactly the units handed out", key="read tell")
+    # read() to the end: the units already pending come first, then every decoded chunk in order; the buffer is emptied
+    alls = [p for p in paths if p.returns and N.mk_cmp("is", cnt, N.NONE) in p.guards()]
+    good = bool(alls)
+    for p in alls:
+        r = p.retval
+        w = [e for e in p.events if e.kind == "SELFWRITE" and e["attr"] == "rbuffer"]
+        good = good and (r == rb or (r[0] == "lv" and r[3] == rb)) and bool(w) and w[-1]["value"] == N.const(b"")
+        inloop = [e for e in w if e.loops]
+        good = good and all(e["value"][0] in ("uconcat", "concat") and e["value"][1] in (rb, r) or e["value"][1][0] == "lv" for e in inloop)
+    ctx.ob("C10.R4", fi, good, "read() to the end returns the pending units followed by every decoded chunk in order, and empties the buffer", key="read all")
     fi, paths = own_method_paths(ctx, "RestreamedBytesIO", "write")
     data = ("param", "data")
     first = [p.events[0] for p in paths if p.events]
@@ -231,7 +241,7 @@ def rest(ctx):
         g = ("call", ("free", "len"), (buf,), ())
         bad = [p for p in paths if g in p.guards()]
         ctx.ob("C10.R4", fi, bool(bad) and all(p.outcome[0] == "raise" for p in bad), "close() refuses a non-empty %s" % buf[2], key="close %s" % buf[2])
-    ctx.floor("C10.R4", 16)
+    ctx.floor("C10.R4", 17)
 
     # ---- R3: lookup tables inverse by construction
     rel = [r for r in M.modules if r.endswith("binary.py")][0]
